@@ -736,6 +736,16 @@ func build(sw *sim.World) {
 		r.Fill(rec.dev.JoinEUI[:])
 		r.Fill(rec.dev.NwkKey[:])
 		r.Fill(rec.dev.AppKey[:])
+		// root keys are 128 arbitrary bits: now and then one of them is all
+		// zeros (a provisioning default), or the two are equal
+		switch r.Intn(20) {
+		case 0:
+			rec.dev.NwkKey = spec.Key{}
+		case 1:
+			rec.dev.AppKey = spec.Key{}
+		case 2:
+			rec.dev.AppKey = rec.dev.NwkKey
+		}
 		r.Fill(rec.homeNet[:])
 		if r.Intn(2) == 0 {
 			rec.asLabel = fmt.Sprintf("as-%d", i)
@@ -889,6 +899,9 @@ func genCFList(r *sim.Rand) []byte {
 			}
 			if i >= n {
 				f = 0
+			}
+			if i > 0 && i < n-1 && r.Intn(8) == 0 {
+				f = 0 // an unused slot between used ones: positions are channel indices
 			}
 			b[3*i], b[3*i+1], b[3*i+2] = byte(f), byte(f>>8), byte(f>>16)
 		}
